@@ -6,6 +6,8 @@ ORACLE    API facts (what is registered, under which name, on which module varia
           the implementation's text vs the same extraction from the model's text; plus a direct check that every
           module variable is created exactly once before anything is placed in it
 """
+import re
+
 import framework as fw
 import projections as pj
 from props import _pybind_common as pc
@@ -16,8 +18,29 @@ PROP = "C03"
 THEOREM_MODULES = ["WrapModel.Props.C03"]
 
 
+METHOD_RE = re.compile(r'\.def\("(\w+)",\[\]\([^{]*?\)\{[^;]*?self->(\w+)\s*(?:<[^;]*?>)?\(')
+STATIC_RE = re.compile(r'\.def_static\("(\w+)",\[\]\([^{]*?\)\{\s*(?:return\s+)?[^;(]*?::(\w+)\s*(?:<[^;]*?>)?\(')
+FUNC_RE = re.compile(r'\bm_\w*\.def\("(\w+)",\[\]\([^{]*?\)\{\s*(?:return\s+)?[^;(]*?::(\w+)\s*(?:<[^;]*?>)?\(')
+
+
+def naming_ok(text):
+    """the declared name IS the Python name, except that exactly the keywords of Python (`keyword.kwlist`; for free functions
+    also `print`) get one trailing underscore: judged on every binding whose Python name is the C++ name it calls, with or
+    without one trailing underscore (instantiation suffixes, `__repr__`, `_repr_x_`, `insert_<name>` are other rules)"""
+    import keyword
+    for kind, rx in (("method", METHOD_RE), ("static method", STATIC_RE), ("function", FUNC_RE)):
+        for m in rx.finditer(text):
+            py, cpp = m.group(1), m.group(2)
+            reserved = cpp in keyword.kwlist or (kind == "function" and cpp == "print")
+            if py == cpp + "_" and not reserved:
+                return "the %s declared as `%s` is exposed as `%s` although `%s` is not a Python keyword" % (kind, cpp, py, cpp)
+            if py == cpp and reserved:
+                return "the %s declared as `%s` is exposed under that name although it is a Python keyword" % (kind, cpp)
+    return None
+
+
 def direct(text, r):
-    return pj.module_vars_ok(text)
+    return pj.module_vars_ok(text) or naming_ok(text)
 
 
 def replay_finding(e):
@@ -40,7 +63,11 @@ def main(ctx):
                                          extra_kinds=['ns', 'ns', 'ns', 'cls'], max_decls=5), 0.4),
                                    # `…Values` containers with insert(size_t, X): only gtsam::Values gets the extra
                                    # `insert_<name>` bindings
-                                   (dict(p_values_insert=0.6, ns_pool=["gtsam", "other", "gtsam"], extra_kinds=['ns', 'cls', 'cls']), 0.3)])
+                                   (dict(p_values_insert=0.6, ns_pool=["gtsam", "other", "gtsam"], extra_kinds=['ns', 'cls', 'cls']), 0.3),
+                                   # members and functions named like Python's soft keywords, builtins and near-keywords: ordinary
+                                   # identifiers, exposed under exactly their names
+                                   (dict(mnames=["match", "type", "case", "print", "exec", "self", "async", "None", "id", "await"],
+                                         extra_kinds=['func', 'func', 'cls'], max_members=5), 0.3)])
     for e in ctx.known:
         still = replay_finding(e)
         if e.get("kind") == "fixed":
